@@ -1458,7 +1458,13 @@ def ifp_cases(draw, reparam="any", n_train=None):
         n_train = draw(st.integers(1, 3))
     if reparam == "any":
         reparam = draw(st.sampled_from(["logit", "logit", None]))
-    ws = draw(st.lists(st.floats(0.05, 1.0), min_size=4, max_size=4))
+    # proposal weights: any non-negative values that sum to one are accepted
+    # by update_proposal_weights, including a proposal with weight exactly 0
+    # (a level from which no sample has been drawn yet); the first weight is
+    # kept positive so that every prefix can be normalised
+    ws = [draw(st.floats(0.05, 1.0))] + draw(st.lists(
+        st.one_of(st.floats(0.05, 1.0), st.floats(0.05, 1.0), st.just(0.0)),
+        min_size=3, max_size=3))
     return {
         "kind": "ifp",
         "cfg": cfg,
@@ -1516,6 +1522,8 @@ def classify(case):
     if kind == "ifp":
         cl.append("ifp-reparam:" + str(case["reparam"]))
         cl.append(f"ifp-n_train={case['n_train']}")
+        if any(w == 0.0 for w in case["weights"][: case["n_train"] + 1]):
+            cl.append("ifp-zero-weight-proposal")
     return cl, cfg["n_blocks"] >= 2
 
 
